@@ -197,7 +197,7 @@ def elem_sig(e):
     return (e.tag, tuple(sorted(e.attrib.items())), e.text, e.tail, tuple(elem_sig(c) for c in e))
 
 
-OPS = ('is_valid', 'iter_errors', 'decode_lax', 'to_objects', 'encode', 'simple_scratch', 'lazy_errors')
+OPS = ('is_valid', 'iter_errors', 'decode_lax', 'decode_strict', 'to_objects', 'encode', 'simple_scratch', 'lazy_errors')
 
 
 def run_op(xmlschema, schema, op, text):
@@ -208,6 +208,9 @@ def run_op(xmlschema, schema, op, text):
     if op == 'decode_lax':
         data, errs = schema.decode(text, validation='lax')
         return repr(data), [clean_reason(e.reason) for e in errs]
+    if op == 'decode_strict':
+        # (strict mode raises at the first error: the scratch contexts of the simple types then run in strict mode too)
+        return repr(schema.decode(text))
     if op == 'to_objects':
         out = schema.to_objects(text, validation='lax')
         obj, errs = out if isinstance(out, tuple) else (out, [])
